@@ -35,6 +35,8 @@ type world struct {
 	real    map[int]types.Hash256 // V profile: real sectors written through the volume manager
 	extra   []string              // directories to remove at the end
 	looseSlots bool               // after an interrupted migration: slot indices are no longer compared across sides
+	fsDirty    bool               // a volume data file was removed or restored since the last restart
+	probe      int                // number of the next write-probe sector (V profile)
 	thorough bool
 }
 
@@ -576,12 +578,77 @@ func (w *world) doRestart(tr *vhlib.Trace, p vhlib.ParsedLine) {
 			stale++
 		}
 	}
+	// volumes: the facts as of THIS restart, then a write probe
+	volObs := ""
+	if w.main.mgr.vm != nil {
+		facts := w.main.volumeFacts()
+		volObs = fmt.Sprintf(" fschg=%d vols=%s wr=%s", vhlib.B01(w.fsDirty), vhlib.FmtList(facts), w.writeProbe())
+		w.fsDirty = false
+	}
 	tr.Count("restart:" + p.Args["mode"])
-	tr.Line(p.Raw, fmt.Sprintf("%s nhooks=%d hooks=%d dlvb=%s dlva=%s alters=%s cache=%s integ=%s stale=%d", strings.Join(parts, " "), nhooks, expect,
-		vhlib.FmtList(dlvb), vhlib.FmtList(dlva), vhlib.FmtList(alters), plus(w.main.cacheDiff(w.b.liveIDs())), w.main.integrity(), stale))
+	tr.Line(p.Raw, fmt.Sprintf("%s nhooks=%d hooks=%d dlvb=%s dlva=%s alters=%s cache=%s integ=%s stale=%d%s", strings.Join(parts, " "), nhooks, expect,
+		vhlib.FmtList(dlvb), vhlib.FmtList(dlva), vhlib.FmtList(alters), plus(w.main.cacheDiff(w.b.liveIDs())), w.main.integrity(), stale, volObs))
 }
 
 // ---------------------------------------------------------------- V profile: real volumes
+
+// volumePath: where the store says the data file of harness volume n lives.
+func (sd *side) volumePath(n int) string {
+	vs, _ := sd.st.Volumes()
+	for _, v := range vs {
+		if filepath.Base(v.LocalPath) == fmt.Sprintf("vol%d.dat", n) {
+			return v.LocalPath
+		}
+	}
+	return ""
+}
+
+// volumeFacts: per volume, right after a restart: is the data file there, what the persisted row says, what
+// the manager serves (list and by id), read-only flag and occupancy: `id:file:stored:listed:byid:status:ro:used:total`.
+func (sd *side) volumeFacts() []string {
+	var out []string
+	rows, _ := sd.st.Volumes()
+	sort.Slice(rows, func(i, j int) bool { return rows[i].ID < rows[j].ID })
+	listed := map[int64]bool{}
+	status := map[int64]string{}
+	if vs, err := sd.mgr.vm.Volumes(); err == nil {
+		for _, v := range vs {
+			listed[v.ID], status[v.ID] = v.Available, v.Status
+		}
+	}
+	for _, r := range rows {
+		_, statErr := os.Stat(r.LocalPath)
+		byID := false
+		if v, err := sd.mgr.vm.Volume(r.ID); err == nil {
+			byID = v.Available
+		}
+		out = append(out, fmt.Sprintf("%d:%d:%d:%d:%d:%s:%d:%d:%d", r.ID, vhlib.B01(statErr == nil), vhlib.B01(r.Available), vhlib.B01(listed[r.ID]),
+			vhlib.B01(byID), status[r.ID], vhlib.B01(r.ReadOnly), r.UsedSectors, r.TotalSectors))
+	}
+	return out
+}
+
+// writeProbe stores one fresh sector through the volume manager on both sides.
+func (w *world) writeProbe() string {
+	w.probe++
+	r := 1000 + w.probe
+	d := sectorData(r)
+	root := rhp2.SectorRoot(d)
+	res := ""
+	for _, sd := range []*side{w.twin, w.main} {
+		var err error
+		pn, _ := vhlib.Try(func() {
+			if err = sd.mgr.vm.Write(root, d); err == nil {
+				err = sd.mgr.vm.Sync()
+			}
+		})
+		res = classify(pn, err)
+	}
+	if res == "ok" {
+		w.real[r] = root
+	}
+	return res
+}
 
 func sectorData(r int) *[rhp2.SectorSize]byte {
 	var d [rhp2.SectorSize]byte
@@ -630,6 +697,18 @@ func (w *world) doVolumeOp(tr *vhlib.Trace, p vhlib.ParsedLine) {
 				}
 			case "V.SetReadOnly":
 				err = sd.mgr.vm.SetReadOnly(int64(p.Int("v")), p.Int("ro") == 1)
+			case "V.HideFile", "V.RestoreFile":
+				// the operator's disk disappears / comes back: the data file is renamed away / back
+				path := sd.volumePath(p.Int("v"))
+				switch {
+				case path == "":
+					err = errUnknown
+				case p.Args["name"] == "V.HideFile":
+					err = os.Rename(path, path+".hidden")
+				default:
+					err = os.Rename(path+".hidden", path)
+				}
+				w.fsDirty = true
 			default:
 				err = fmt.Errorf("unknown volume op")
 			}
